@@ -428,6 +428,29 @@ pub fn run(a: &Args, rep: &mut Report) {
         return;
     }
     mon::tick();
+    // 3b. nesting families: every depth 0..=48 of indefinite containers around a definite one that
+    // holds an indefinite one, chains, alternating nesting (where the alloc / no-alloc twins of skip differ)
+    {
+        let mut r0 = Rng::derive("c20/nest", a.seed, 0, 0);
+        let fam = corpus::nesting_families(&mut r0, 150);
+        let mut n = 0u64;
+        for (k, (_name, b)) in fam.iter().enumerate() {
+            if a.mine(k as u64) && b.len() <= 400 {
+                if !go(&mut drv, rep, b, "nesting-families", false) {
+                    return;
+                }
+                n += 1;
+                // the same item as an unknown trailing element of a definite array
+                let mut w = vec![0x82, 0x01];
+                w.extend_from_slice(b);
+                if w.len() <= 400 && !go(&mut drv, rep, &w, "nesting-families-in-array", false) {
+                    return;
+                }
+            }
+        }
+        rep.enumerated(n);
+    }
+    mon::tick();
     // 4. samples of the derived / serde types and their variations
     let samples = read_samples(a, rep);
     let parsed: Vec<(String, Vec<u8>, Option<Item>)> = samples.into_iter().map(|(n, b)| { let it = refcbor::parse(&b).ok().map(|x| x.0); (n, b, it) }).collect();
